@@ -232,8 +232,9 @@ def eval (G : R → RuleDef R) (ws : Option R) : Nat → Atom → PExpr R → St
       | .fail => .ok st []
       | .fuel => .fuel
 
-/-- default fuel: generous, linear in the input -/
-def defaultFuel (n : Nat) : Nat := 40 * n + 400
+/-- default fuel: linear in the input, and above the bound under which `Lemmas/GrammarTotal` proves that the interpreter
+    never runs out on the regenerated grammar (there: `n * A + K * P + 1` with `A`, `K`, `P` computed from the grammar) -/
+def defaultFuel (n : Nat) : Nat := 2000 * n + 2000
 
 /-- run rule `r` (as entry point) on `src` -/
 def parse (G : R → RuleDef R) (ws : Option R) (r : R) (src : Str) : PRes R :=
